@@ -283,7 +283,7 @@ func clCheckTimeline(out *clOutcome) []clFinding {
 	// in-memory latest per client never regresses (sampled at quiescent points / after each step)
 	for c, ss := range out.latestSamples {
 		for i := 1; i < len(ss); i++ {
-			if ss[i] < ss[i-1] {
+			if ss[i] >= 0 && ss[i-1] >= 0 && ss[i] < ss[i-1] {
 				fs = append(fs, clFinding{"C13/C14 in-memory latest tree size regressed", fmt.Sprintf("client %d: %d -> %d", c, ss[i-1], ss[i])})
 				break
 			}
@@ -311,8 +311,18 @@ func clCheckSecurity(out *clOutcome) []clFinding {
 			}
 		}
 		if lk.kind == "err:security" && len(secs) == 0 {
-			// initErr is sticky: a client whose initialisation hit the fork reports it again without calling back.
-			if !strings.Contains(lk.err.Error(), "initializing sumdb.Client") {
+			// results are cached per client instance (initErr, the per-file once-cache): a repeated report is the same
+			// report; the callback must have run earlier on this instance
+			earlier := false
+			for _, ev := range out.env.trace[:lk.from] {
+				if ev.C == lk.c && ev.Kind == "new" {
+					earlier = false
+				}
+				if ev.C == lk.c && ev.Kind == "sec" {
+					earlier = true
+				}
+			}
+			if !earlier {
 				fs = append(fs, clFinding{"C13 lookup failed with a security error but the security callback was not invoked", lk.key})
 			}
 			continue
@@ -395,8 +405,17 @@ func clCheckHonest(out *clOutcome, tagPrefix string) []clFinding {
 	return fs
 }
 
-// clCheckFetchOnce: per client, each cache file and each remote path is read at most once.
+// clCheckFetchOnce: per client instance, each distinct lookup (cache file / remote path) is read at most once.
+// Tile FILES can legitimately be read more than once: the once-cache is keyed by tile including its width, and a
+// partial tile falls back to the file of the full tile, which a later, larger tree reads again under its own key.
+// Such re-reads are returned as the second result (observations), not as findings.
 func clCheckFetchOnce(out *clOutcome) []clFinding {
+	fs, _ := clCheckFetchOnce2(out)
+	return fs
+}
+
+func clCheckFetchOnce2(out *clOutcome) ([]clFinding, int) {
+	tileRereads := 0
 	var fs []clFinding
 	cnt := map[string]int{}
 	epoch := map[int]int{}
@@ -418,10 +437,14 @@ func clCheckFetchOnce(out *clOutcome) []clFinding {
 	sort.Strings(keys)
 	for _, k := range keys {
 		if cnt[k] > 1 {
-			fs = append(fs, clFinding{"C14 a lookup or tile file was fetched more than once by one client", fmt.Sprintf("%s x%d", k, cnt[k])})
+			if strings.Contains(k, "/tile/") {
+				tileRereads++
+				continue
+			}
+			fs = append(fs, clFinding{"C14 a lookup was fetched more than once by one client", fmt.Sprintf("%s x%d", k, cnt[k])})
 		}
 	}
-	return fs
+	return fs, tileRereads
 }
 
 func clReport(g *Gen, fs []clFinding, sc *clScenario) {
